@@ -22,9 +22,9 @@ Definition all_kinds : list tkind :=
    KLineBreak; KSemicolon; KThen; KThickArrow; KThinArrow; KTrue; KType].
 
 (* a token value: a kind, with the identifier's code points or the literal's value as payload *)
-Inductive tokv := TK (k : tkind) | TIdent (text : list N) | TLit (z : Z).
+Inductive tokv := TK (k : tkind) | TIdent (text : list N) | TNum (z : Z).
 Definition kind_of (v : tokv) : tkind :=
-  match v with TK k => k | TIdent _ => KIdentifier | TLit _ => KIntegerLiteral end.
+  match v with TK k => k | TIdent _ => KIdentifier | TNum _ => KIntegerLiteral end.
 
 Record tok := { tstart : nat; tend : nat; tv : tokv }.
 
